@@ -181,6 +181,36 @@ class Ctx(object):
         self.stats['functions_seen'] += 1
         return node
 
+    def region(self, modname, qual):
+        """the function together with the helpers a refactoring split off from it: functions of the same module that are
+        not in the reference list (sa/baseline_funcs.json) and are reachable from `qual` through self./Class./plain calls
+        (the normal form inlines what it can; what it cannot inline - a helper that returns from inside a loop, a
+        generator - is still part of the code the rule speaks about).  Returns [FunctionDef, ...], `qual` first."""
+        from . import normalize as NZ
+        fn = self.func(modname, qual)
+        base = NZ.baseline_funcs().get(modname) or set()
+        m = self.mod(modname)
+        cands = {}
+        for q, f, _ism in NZ.module_functions(m.tree):
+            if q not in base:
+                cands[q.split('.')[-1]] = (q, f)
+        out = [fn]
+        seen = {id(fn)}
+        todo = [fn]
+        while todo:
+            cur = todo.pop()
+            for c in ast.walk(cur):
+                if isinstance(c, ast.Call):
+                    nm = c.func.attr if isinstance(c.func, ast.Attribute) else (c.func.id if isinstance(c.func, ast.Name) else None)
+                    if nm in cands and id(cands[nm][1]) not in seen:
+                        q, f = cands[nm]
+                        f._qual = q
+                        f._mod = m
+                        seen.add(id(f))
+                        out.append(f)
+                        todo.append(f)
+        return out
+
     def functions(self, modname):
         """yield (qualname, FunctionDef) for every function/method of a module (one nesting level of classes)."""
         m = self.mod(modname)
